@@ -370,6 +370,9 @@ class Database:
                 offsetCycle = cycle - minCycle
                 offsetGroupName = getH5GroupName(offsetCycle, node)
                 dbIn.copy(getH5GroupName(cycle, node), dbOut, name=offsetGroupName)
+                # the group's own cycle attribute (the key of getHistories and
+                # getHistoriesByLocation) must follow the renumbering as well
+                dbOut[offsetGroupName].attrs["cycle"] = offsetCycle
                 dbOut[offsetGroupName + "/Reactor/cycle"][()] = offsetCycle
 
         return backupDBPath
